@@ -294,12 +294,14 @@ func denoteAny(v JV) Den {
 		g := GV{K: "list"}
 		d := Den{St: Exact, Class: "any:arr"}
 		for _, e := range v.E {
-			if e.K == "hole" {
-				return anyDen("any:arr-with-hole") // Export() of sparse arrays belongs to C15
+			if e.K == "hole" { // reads as undefined: a nil element, the positions of the others kept
+				g.Elems = append(g.Elems, Nil())
+				d.Class = "any:arr-with-hole"
+				continue
 			}
 			ed := denoteAny(e)
-			if ed.St != Exact || e.K == "undef" {
-				return anyDen("any:arr-of-unmodelled") // undefined inside an exported container: Export() belongs to C15
+			if ed.St != Exact {
+				return anyDen("any:arr-of-unmodelled")
 			}
 			g.Elems = append(g.Elems, ed.V)
 		}
